@@ -372,9 +372,41 @@ def worker(task):
     return st_
 
 
+def long_cases():
+    """Message IDs well beyond one octet: several hundred consecutive exchanges on one IKE_SA, started by either end, with a
+    duplicate and a stale copy near the end"""
+    out = []
+    for side, n in (('a', 300), ('b', 270)):
+        ops = []
+        for _ in range(n):
+            ops += [['dpd', side, 0], ['deliver', 0], ['deliver', 0]]
+        ops += [['dpd', side, 0], ['dup', 0], ['deliver', 0], ['dup', 0], ['deliver', 0], ['old', 600], ['old', 601],
+                ['acquire', side, 0, 3], ['deliver', 0], ['deliver', 0]]
+        out.append({'cfg': {'dh': '19', 'mode': 'transport', 'proto': 'esp', 'n': 1, 'pfs': None, 'v6': False, 'rsa': False,
+                            'ike_dh_mismatch': False}, 'first': 'a', 'pre_established': True, 'ops': ops, 'long': n})
+    return out
+
+
+def long_worker(case):
+    st_ = Stats()
+    fails = body(case, st_)
+    st_.klass(f'long-history:{case["long"]}-exchanges')
+    for f in fails:
+        if common.KNOWN.is_open('C08', f.sig):
+            st_.excluded[f.sig] += 1
+        elif not any(g.sig == f.sig for g in st_.failures):
+            st_.failures.append(f)
+    return st_
+
+
+def _dispatch(t):
+    return long_worker(t[1]) if t[0] == 'long' else worker(t[1])
+
+
 def run(ctx):
     n = 120 if ctx.quick else 6000
-    for st_ in pmap(worker, [(n, ctx.seed * 64 + i) for i in range(common.NCPU)]):
+    tasks = [('long', c) for c in long_cases()] + [('w', (n, ctx.seed * 64 + i)) for i in range(common.NCPU)]
+    for st_ in pmap(_dispatch, tasks):
         ctx.stats.merge(st_)
     if not ctx.quick:
         import sys as _sys
